@@ -614,6 +614,10 @@ func toDeleteNotification(n *pb.Notification, timestamp int64) *pb.Notification 
 	}
 	prefix := n.GetPrefix()
 	path := n.Update[0].GetPath()
+	// The appends below must not write into spare capacity of the stored
+	// notification's slices, which other notifications may share.
+	pElem, pElement := prefix.GetElem(), prefix.GetElement()
+	prefix = &pb.Path{Elem: pElem[:len(pElem):len(pElem)], Element: pElement[:len(pElement):len(pElement)]}
 	// Set origin if the origin is in the update
 	if origin := path.GetOrigin(); n.GetPrefix().GetOrigin() == "" && origin != "" {
 		d.Prefix.Origin = origin
